@@ -83,6 +83,7 @@ class Set(
                 self.items.__set__(temp_st, val)
                 res.append(getattr(temp_st, getattr(self.items, "_name")))
             value = cls(res)
+            self.validate_size(value, self._name)
         super().__set__(instance, value)
 
     def serialize(self, value):
@@ -128,5 +129,6 @@ class ImmutableSet(Set, ImmutableField):
                 self.items.__set__(temp_st, val)
                 res.add(getattr(temp_st, getattr(self.items, "_name")))
                 value = res
+            self.validate_size(value, self._name)
         corrected_value = value if isinstance(value, frozenset) else frozenset(value)
         super().__set__(instance, corrected_value)
